@@ -308,9 +308,12 @@ def load_replay(path: Path) -> Dict[str, Any]:
 # Hypothesis driving
 
 
-def hyp_settings(max_examples: int, **kw: Any):
+def hyp_settings(max_examples: int, shrink: bool = True, **kw: Any):
     import hypothesis
-    from hypothesis import HealthCheck, settings
+    from hypothesis import HealthCheck, Phase, settings
+
+    if not shrink:
+        kw["phases"] = [Phase.explicit, Phase.reuse, Phase.generate]
 
     return settings(
         max_examples=max_examples,
@@ -332,7 +335,10 @@ def drive(run: Run, test_fn: Callable[..., None], strategy_args: Dict[str, Any],
 
     for attempt in range(reruns + 1):
         seed = (run.seed * 1_000_003 + seed_salt * 101 + attempt) & 0xFFFFFFFF
-        wrapped = hypothesis.seed(seed)(hyp_settings(max_examples, **setkw)(given(**strategy_args)(test_fn)))
+        # thorough tier: no shrink phase (Hypothesis' shrinker can spend 5 minutes per failure; the checks localise the
+        # root cause themselves and the unshrunk case is a valid replay). quick tier shrinks.
+        shrink = setkw.pop("shrink", run.tier == "quick")
+        wrapped = hypothesis.seed(seed)(hyp_settings(max_examples, shrink=shrink, **setkw)(given(**strategy_args)(test_fn)))
         try:
             wrapped()
             return
